@@ -452,6 +452,10 @@ class Fxp():
         if not isinstance(n_int, (type(None), int)):
             raise TypeError("n_int must be integer or None!")
         
+        # a string-based format excludes the other sizing parameters (checked before anything is changed)
+        if dtype is not None and (signed is not None or n_word is not None or n_frac is not None or n_int is not None):
+            raise ValueError('If dtype is specified, other sizing parameters must be `None`!')
+
         # sign by default
         if signed is not None:
             self.signed = bool(signed)
@@ -460,8 +464,6 @@ class Fxp():
 
         # check if a string-based format has been provided
         if dtype is not None:
-            if signed is not None or n_word is not None or n_frac is not None or n_int is not None:
-                raise ValueError('If dtype is specified, other sizing parameters must be `None`!')
             signed, n_word, n_frac, complex_flag = self._parseformatstr(dtype)
 
             self.vdtype = complex if complex_flag else self.vdtype
